@@ -89,7 +89,7 @@ Definition op_ok (s : state) (o : op) : bool :=
       match p_qos p with Q0 => true | _ => negb (is_some (collision s)) end
   | Out (RPubRel i) => (1 <=? i) && (i <=? max_inflight s) && negb (busy s i)
   | Out r => api_request r
-  | In _ => true
+  | Inc _ => true
   | Clean => true
   end.
 
